@@ -20,9 +20,9 @@ func init() {
 			"distinct_nontrivial counts distinct (history shape, window kind) signatures of histories in which at least one trip is assigned",
 		Cases: func(tier string) int {
 			if tier == "thorough" {
-				return 40000
+				return 200000
 			}
-			return 2500
+			return 20000
 		},
 		Run: runC15,
 		Assumptions: []string{
